@@ -340,7 +340,7 @@ def run(index, rep, tier):
     # ---- R19.12 an export is a matrix over the same alphabet
     with rep.section("R19.12"):
         rep.rule("R19.12", "an exported or cloned matrix keeps the state alphabets of its source: the subclass constructors do not overwrite what the copy-construction route took over (C12 R12.8)")
-        rep.floor("R19.12", "borrowed obligations", 2, borrow(index, rep, "C12", {"R12.8"}, "R19.12"))
+        rep.floor("R19.12", "borrowed obligations", 1, borrow(index, rep, "C12", {"R12.8"}, "R19.12"))
 
 
 def _r19_3(rep, fi, seeds):
